@@ -152,7 +152,7 @@ class C04(Check):
         "Hypothesis: signatures of up to 4 parameters with JSON-scalar defaults and pooled JSON values as arguments. Oracle: a twin function "
         "with the same signature minus the context is called with the same list/mapping: TypeError => -32602 and empty execution log; "
         "otherwise success whose result is the scripted return value and one log entry whose arguments equal the twin's locals(); the "
-        "recorded context is the object passed to dispatch (identity). non-trivial = the signature has >= 1 parameter and params is "
+        "recorded context is the object passed to dispatch (identity) - the context object itself ranges over a plain object, an empty dict, an empty list, a falsy object and None. non-trivial = the signature has >= 1 parameter and params is "
         "non-empty, or a default is exercised, or a context parameter is present; distinct = distinct spec."
     )
     assumptions = [
@@ -164,7 +164,7 @@ class C04(Check):
     trusted_base = ['python call binding (twin functions)', 'pbt/refserver.py']
     required_classes = ['kind/PO', 'kind/PK', 'kind/VP', 'kind/KO', 'kind/VK', 'ctx/none', 'ctx/name', 'ctx/positional', 'ctx/view',
                         'outcome/binds', 'outcome/does-not-bind', 'attack/context-name-supplied', 'default-exercised',
-                        'flavour/func', 'flavour/coro', 'flavour/view', 'flavour/aview']
+                        'flavour/func', 'flavour/coro', 'flavour/view', 'flavour/aview', 'ctx-value/empty-dict', 'ctx-value/falsy-object', 'ctx-value/none']
 
     # ---- generation ---------------------------------------------------------------------------------
 
@@ -178,8 +178,12 @@ class C04(Check):
                         if k % nshards != shard:
                             continue
                         m = {'name': 'v.meth' if variant['flavour'] in ('view', 'aview') else 'meth', **variant}
-                        for shape in param_shapes(m['params']):
-                            yield {'dispatcher': disp, 'method': m, 'params': shape, 'id': 1, 'behaviour': {'kind': 'echo'}}
+                        for n_shape, shape in enumerate(param_shapes(m['params'])):
+                            spec = {'dispatcher': disp, 'method': m, 'params': shape, 'id': 1, 'behaviour': {'kind': 'echo'}}
+                            if m['ctx'] != 'none':
+                                # the server-side context object itself varies: truthy, falsy containers, a falsy object, None
+                                spec['ctx_value'] = sh.CTX_KINDS[(k + n_shape) % len(sh.CTX_KINDS)]
+                            yield spec
 
     def enumerate(self, tier: str):
         return self._enum(2) if tier == 'quick' else None
@@ -206,6 +210,7 @@ class C04(Check):
         s_bits = st.integers(0, 255)
         s_beh = st.one_of(st.just({'kind': 'echo'}), st.just({'kind': 'echo'}), st.builds(lambda v: {'kind': 'return', 'value': v}, s_val))
         s_id = jg.cheap_call_id()
+        s_ctxv = st.sampled_from(sh.CTX_KINDS)
 
         @st.composite
         def case(draw):
@@ -223,7 +228,7 @@ class C04(Check):
                 names = [q['name'] for q in m['params']] + ['zz', 'context']
                 bits = draw(s_bits)
                 p = {'value': {n: draw(s_val) for i, n in enumerate(names) if bits >> i & 1}}
-            return {'dispatcher': disp, 'method': m, 'params': p, 'id': draw(s_id), 'behaviour': draw(s_beh)}
+            return {'dispatcher': disp, 'method': m, 'params': p, 'id': draw(s_id), 'behaviour': draw(s_beh), 'ctx_value': draw(s_ctxv)}
 
         return case()
 
@@ -248,7 +253,7 @@ class C04(Check):
         req: Dict[str, Any] = {'jsonrpc': '2.0', 'id': spec['id'], 'method': m['name']}
         if 'absent' not in spec['params']:
             req['params'] = spec['params']['value']
-        case = {'dispatcher': spec['dispatcher'], 'registry': [m], 'behaviours': {m['name']: spec['behaviour']},
+        case = {'dispatcher': spec['dispatcher'], 'registry': [m], 'behaviours': {m['name']: spec['behaviour']}, 'ctx_value': spec.get('ctx_value', 'object'),
                 'text': {'doc': req, 'ascii': True, 'indent': 0, 'pad': '', 'huge': None, 'mangle': None}}
         obs = sh.observe(case)
         exp = ref.expect(obs.request_text, [m], {m['name']: spec['behaviour']})
@@ -271,6 +276,8 @@ class C04(Check):
 
         el = exp.elements[0] if exp.elements else None
         classes = [f"ctx/{m['ctx']}", f"flavour/{m['flavour']}", f"dispatcher/{spec['dispatcher']}"]
+        if has_ctx:
+            classes.append(f"ctx-value/{spec.get('ctx_value', 'object')}")
         for q in m['params']:
             if not q.get('ctx'):
                 classes.append(f"kind/{q['kind']}")
